@@ -19,20 +19,25 @@ structure XfOk (r : Reg) (xf : Xf) : Prop where
   border : ∀ i, xf.borderId = some i → i < r.borders.length
   num : ∀ n, xf.numFmtId = some n → n ≤ topId r
 
-/-- registry invariant: `Count` fields track the slice lengths, tables are non-empty, number-format
-ids are bounded by the last entry's, every xf refers to existing components -/
+/-- registry invariant (structural): tables are non-empty, number-format ids are bounded by the last
+entry's, every xf refers to existing components. The `Count` fields are NOT part of it: ids are
+positions in the lists -/
 structure WF (r : Reg) : Prop where
-  fontsCount : r.fontsCount = r.fonts.length
-  fillsCount : r.fillsCount = r.fills.length
-  bordersCount : r.bordersCount = r.borders.length
-  xfsCount : r.xfsCount = r.xfs.length
-  numCount : ∀ l c, r.numFmts = some (l, c) → c = l.length ∧ l ≠ []
+  numNe : ∀ l c, r.numFmts = some (l, c) → l ≠ []
   fontsNe : 0 < r.fonts.length
   fillsNe : 0 < r.fills.length
   bordersNe : 0 < r.borders.length
   numTop : ∀ nf ∈ numFmtList r, nf.id ≤ topId r
   topGe : 163 ≤ topId r
   refs : ∀ xf ∈ r.xfs, XfOk r xf
+
+/-- the `Count` fields equal the element counts -/
+structure CountsOk (r : Reg) : Prop where
+  fonts : r.fontsCount = r.fonts.length
+  fills : r.fillsCount = r.fills.length
+  borders : r.bordersCount = r.borders.length
+  xfs : r.xfsCount = r.xfs.length
+  nums : ∀ l c, r.numFmts = some (l, c) → c = l.length
 
 /-- `r'` extends `r`: every table of `r` is a prefix of the table of `r'`, and new number formats
 carry ids above every id of `r` -/
@@ -79,47 +84,40 @@ theorem ext_of_tables {r r' : Reg} (hn : r'.numFmts = r.numFmts)
   ⟨hf, hl, hb, hx, ⟨[], by simp [numFmtList_congr hn]⟩, by rw [topId_congr hn]; exact Nat.le_refl _⟩
 
 theorem wf_of_ext_same_xfs {r r' : Reg} (w : WF r) (e : Ext r r') (hx : r'.xfs = r.xfs)
-    (hxc : r'.xfsCount = r.xfsCount)
-    (c1 : r'.fontsCount = r'.fonts.length) (c2 : r'.fillsCount = r'.fills.length)
-    (c3 : r'.bordersCount = r'.borders.length)
-    (c4 : ∀ l c, r'.numFmts = some (l, c) → c = l.length ∧ l ≠ [])
+    (c4 : ∀ l c, r'.numFmts = some (l, c) → l ≠ [])
     (c5 : ∀ nf ∈ numFmtList r', nf.id ≤ topId r') : WF r' := by
   obtain ⟨f1, hf1⟩ := e.fonts
   obtain ⟨l1, hl1⟩ := e.fills
   obtain ⟨b1, hb1⟩ := e.borders
-  refine ⟨c1, c2, c3, by rw [hxc, hx]; exact w.xfsCount, c4, ?_, ?_, ?_, c5, Nat.le_trans w.topGe e.top, ?_⟩
+  refine ⟨c4, ?_, ?_, ?_, c5, Nat.le_trans w.topGe e.top, ?_⟩
   · have := w.fontsNe; rw [hf1, List.length_append]; omega
   · have := w.fillsNe; rw [hl1, List.length_append]; omega
   · have := w.bordersNe; rw [hb1, List.length_append]; omega
   · intro xf hxf; rw [hx] at hxf; exact (w.refs xf hxf).mono e
 
-theorem addFont_rec {r : Reg} (w : WF r) (x : XFont) :
-    let r' := { r with fontsCount := r.fontsCount + 1, fonts := r.fonts ++ [x] }
+theorem addFont_rec {r : Reg} (w : WF r) (x : XFont) (c : Nat) :
+    let r' := { r with fontsCount := c, fonts := r.fonts ++ [x] }
     Ext r r' ∧ WF r' := by
   intro r'
   have e : Ext r r' := ext_of_tables rfl ⟨[x], rfl⟩ ⟨[], by simp [r']⟩ ⟨[], by simp [r']⟩ ⟨[], by simp [r']⟩
-  refine ⟨e, wf_of_ext_same_xfs w e rfl rfl ?_ w.fillsCount w.bordersCount w.numCount w.numTop⟩
-  simp [r', w.fontsCount]
+  exact ⟨e, wf_of_ext_same_xfs w e rfl w.numNe w.numTop⟩
 
-theorem addFill_rec {r : Reg} (w : WF r) (x : XFill) :
-    let r' := { r with fillsCount := r.fillsCount + 1, fills := r.fills ++ [x] }
+theorem addFill_rec {r : Reg} (w : WF r) (x : XFill) (c : Nat) :
+    let r' := { r with fillsCount := c, fills := r.fills ++ [x] }
     Ext r r' ∧ WF r' := by
   intro r'
   have e : Ext r r' := ext_of_tables rfl ⟨[], by simp [r']⟩ ⟨[x], rfl⟩ ⟨[], by simp [r']⟩ ⟨[], by simp [r']⟩
-  refine ⟨e, wf_of_ext_same_xfs w e rfl rfl w.fontsCount ?_ w.bordersCount w.numCount w.numTop⟩
-  simp [r', w.fillsCount]
+  exact ⟨e, wf_of_ext_same_xfs w e rfl w.numNe w.numTop⟩
 
-theorem addBorder_rec {r : Reg} (w : WF r) (x : XBorder) :
-    let r' := { r with bordersCount := r.bordersCount + 1, borders := r.borders ++ [x] }
+theorem addBorder_rec {r : Reg} (w : WF r) (x : XBorder) (c : Nat) :
+    let r' := { r with bordersCount := c, borders := r.borders ++ [x] }
     Ext r r' ∧ WF r' := by
   intro r'
   have e : Ext r r' := ext_of_tables rfl ⟨[], by simp [r']⟩ ⟨[], by simp [r']⟩ ⟨[x], rfl⟩ ⟨[], by simp [r']⟩
-  refine ⟨e, wf_of_ext_same_xfs w e rfl rfl w.fontsCount w.fillsCount ?_ w.numCount w.numTop⟩
-  simp [r', w.bordersCount]
+  exact ⟨e, wf_of_ext_same_xfs w e rfl w.numNe w.numTop⟩
 
 /-- appending a number format whose id exceeds every id in use -/
-theorem addNum_rec {r : Reg} (w : WF r) (id : Nat) (c : Str) (cnt : Nat) (hid : topId r < id)
-    (hcnt : cnt = (numFmtList r).length + 1) :
+theorem addNum_rec {r : Reg} (w : WF r) (id : Nat) (c : Str) (cnt : Nat) (hid : topId r < id) :
     let r' := { r with numFmts := some (numFmtList r ++ [⟨id, c⟩], cnt) }
     Ext r r' ∧ WF r' ∧ topId r' = id := by
   intro r'
@@ -129,12 +127,12 @@ theorem addNum_rec {r : Reg} (w : WF r) (id : Nat) (c : Str) (cnt : Nat) (hid : 
     refine ⟨⟨[], by simp [r']⟩, ⟨[], by simp [r']⟩, ⟨[], by simp [r']⟩, ⟨[], by simp [r']⟩,
       ⟨[⟨id, c⟩], hl, ?_⟩, by rw [ht]; omega⟩
     intro nf hnf; simp at hnf; subst hnf; exact hid
-  refine ⟨e, wf_of_ext_same_xfs w e rfl rfl w.fontsCount w.fillsCount w.bordersCount ?_ ?_, ht⟩
+  refine ⟨e, wf_of_ext_same_xfs w e rfl ?_ ?_, ht⟩
   · intro l c' h
     simp [r'] at h
-    obtain ⟨h1, h2⟩ := h
-    subst h1; subst h2
-    exact ⟨by simp [hcnt], by simp⟩
+    obtain ⟨h1, _⟩ := h
+    subst h1
+    simp
   · intro nf hnf
     rw [hl] at hnf; rw [ht]
     rcases List.mem_append.mp hnf with h | h
@@ -146,8 +144,7 @@ theorem addXf_rec {r : Reg} (w : WF r) (xf : Xf) (ok : XfOk r xf) :
     Ext r r' ∧ WF r' := by
   intro r'
   have e : Ext r r' := ext_of_tables rfl ⟨[], by simp [r']⟩ ⟨[], by simp [r']⟩ ⟨[], by simp [r']⟩ ⟨[xf], rfl⟩
-  refine ⟨e, ⟨w.fontsCount, w.fillsCount, w.bordersCount, by simp [r'], w.numCount, w.fontsNe, w.fillsNe,
-    w.bordersNe, w.numTop, w.topGe, ?_⟩⟩
+  refine ⟨e, ⟨w.numNe, w.fontsNe, w.fillsNe, w.bordersNe, w.numTop, w.topGe, ?_⟩⟩
   intro x hx
   simp [r'] at hx
   rcases hx with h | h
@@ -234,7 +231,7 @@ theorem newNumFmt_spec {r r1 : Reg} {s : Style} {n : Nat} (w : WF r) (h : newNum
       simp at h; obtain ⟨h1, h2⟩ := h
       have hid := topId_le_foldMax w
       subst h2
-      have := addNum_rec w _ c ((numFmtList r).length + 1) (Nat.lt_succ_of_le hid) rfl
+      have := addNum_rec w _ c ((numFmtList r).length + 1) (Nat.lt_succ_of_le hid)
       subst h1
       exact ⟨this.1, this.2.1, by rw [this.2.2]; exact Nat.le_refl _⟩
   · split at h
@@ -254,7 +251,7 @@ theorem newNumFmt_spec {r r1 : Reg} {s : Style} {n : Nat} (w : WF r) (h : newNum
           simp at h; obtain ⟨h1, h2⟩ := h
           have hl : numFmtList r = [] := by simp [numFmtList, hnone]
           have ht : topId r = 163 := by simp [topId, hl]
-          have := addNum_rec w 164 (currencyCode fc s) 1 (by omega) (by simp [hl])
+          have := addNum_rec w 164 (currencyCode fc s) 1 (by omega)
           simp only [hl, List.nil_append] at this
           subst h1; subst h2
           obtain ⟨e, w', ht'⟩ := this
@@ -266,8 +263,7 @@ theorem newNumFmt_spec {r r1 : Reg} {s : Style} {n : Nat} (w : WF r) (h : newNum
             simp at h; obtain ⟨h1, h2⟩ := h
             have hl : numFmtList r = l := by simp [numFmtList, hsome]
             have ht : topId r = last.id := by simp [topId, hl, hlast]
-            have hc := (w.numCount l cnt hsome).1
-            have := addNum_rec w (last.id + 1) (currencyCode fc s) (cnt + 1) (by omega) (by simp [hl, hc])
+            have := addNum_rec w (last.id + 1) (currencyCode fc s) (cnt + 1) (by omega)
             simp only [hl] at this
             subst h1; subst h2
             obtain ⟨e, w', ht'⟩ := this
@@ -306,10 +302,10 @@ theorem addFont_spec {r r2 : Reg} {s s' : Style} {i : Nat} (w : WF r) (h : addFo
         · simp at h
         · rename_i xf f' _
           simp at h; obtain ⟨h1, h2, _⟩ := h
-          have := addFont_rec w xf
+          have := addFont_rec w xf (r.fonts.length + 1)
           subst h1; subst h2
           refine ⟨this.1, this.2, ?_⟩
-          simp [w.fontsCount]
+          simp
 
 theorem addBorder_spec {r : Reg} {s : Style} (w : WF r) :
     Ext r (addBorder r s).1 ∧ WF (addBorder r s).1 ∧ (addBorder r s).2 < (addBorder r s).1.borders.length := by
@@ -323,9 +319,9 @@ theorem addBorder_spec {r : Reg} {s : Style} (w : WF r) :
     · exact findIdx?_lt hi
   · split
     · exact ⟨Ext.refl _, w, w.bordersNe⟩
-    · have := addBorder_rec w (newBorders s.border)
+    · have := addBorder_rec w (newBorders s.border) (r.borders.length + 1)
       refine ⟨this.1, this.2, ?_⟩
-      simp [w.bordersCount]
+      simp
 
 theorem addFill_spec {r : Reg} {s : Style} (w : WF r) :
     Ext r (addFill r s).1 ∧ WF (addFill r s).1 ∧ (addFill r s).2 < (addFill r s).1.fills.length := by
@@ -341,9 +337,9 @@ theorem addFill_spec {r : Reg} {s : Style} (w : WF r) :
       · exact findIdx?_lt hi
   · split
     · rename_i x _
-      have := addFill_rec w x
+      have := addFill_rec w x (r.fills.length + 1)
       refine ⟨this.1, this.2, ?_⟩
-      simp [w.fillsCount]
+      simp
     · exact ⟨Ext.refl _, w, w.fillsNe⟩
 
 theorem setCellXfs_spec {r r5 : Reg} {fontID numFmtID fillID borderID id : Nat} {aa ap : Bool} {al : Str}
@@ -469,6 +465,121 @@ theorem createStyle_xfs {r r' : Reg} {s s' : Style} {id : Nat} (h : createStyle 
           subst hr; subst hi
           rw [← h51, ← h52, hx]
           exact ⟨by omega, ⟨_, rfl⟩⟩
+
+
+/-! ### `Count` fields: a table that is appended to gets `Count = len`; untouched tables keep theirs -/
+
+def Touched {α} (l l' : List α) (c c' : Nat) : Prop := (l' = l ∧ c' = c) ∨ c' = l'.length
+
+theorem Touched.refl {α} (l : List α) (c : Nat) : Touched l l c c := Or.inl ⟨rfl, rfl⟩
+
+theorem Touched.trans {α} {l l' l'' : List α} {c c' c'' : Nat} (h1 : Touched l l' c c') (h2 : Touched l' l'' c' c'') :
+    Touched l l'' c c'' := by
+  rcases h2 with ⟨e1, e2⟩ | h2
+  · subst e1; subst e2; exact h1
+  · exact Or.inr h2
+
+structure CountStep (r r' : Reg) : Prop where
+  fonts : Touched r.fonts r'.fonts r.fontsCount r'.fontsCount
+  fills : Touched r.fills r'.fills r.fillsCount r'.fillsCount
+  borders : Touched r.borders r'.borders r.bordersCount r'.bordersCount
+  xfs : Touched r.xfs r'.xfs r.xfsCount r'.xfsCount
+  nums : (∀ l c, r.numFmts = some (l, c) → c = l.length) → (∀ l c, r'.numFmts = some (l, c) → c = l.length)
+
+theorem CountStep.refl (r : Reg) : CountStep r r :=
+  ⟨Touched.refl _ _, Touched.refl _ _, Touched.refl _ _, Touched.refl _ _, fun h => h⟩
+
+theorem CountStep.trans {a b c : Reg} (h1 : CountStep a b) (h2 : CountStep b c) : CountStep a c :=
+  ⟨h1.fonts.trans h2.fonts, h1.fills.trans h2.fills, h1.borders.trans h2.borders, h1.xfs.trans h2.xfs,
+   fun h => h2.nums (h1.nums h)⟩
+
+theorem CountsOk.step {r r' : Reg} (c : CountsOk r) (s : CountStep r r') : CountsOk r' := by
+  refine ⟨?_, ?_, ?_, ?_, s.nums c.nums⟩
+  · rcases s.fonts with ⟨e1, e2⟩ | h
+    · rw [e1, e2]; exact c.fonts
+    · exact h
+  · rcases s.fills with ⟨e1, e2⟩ | h
+    · rw [e1, e2]; exact c.fills
+    · exact h
+  · rcases s.borders with ⟨e1, e2⟩ | h
+    · rw [e1, e2]; exact c.borders
+    · exact h
+  · rcases s.xfs with ⟨e1, e2⟩ | h
+    · rw [e1, e2]; exact c.xfs
+    · exact h
+
+theorem newNumFmt_cstep {r r1 : Reg} {s : Style} {n : Nat} (h : newNumFmt r s = .ok (r1, n)) : CountStep r r1 := by
+  unfold newNumFmt at h
+  repeat' split at h
+  all_goals first
+    | (simp at h; done)
+    | (injection h with h; injection h with h1 h2; subst h1; exact CountStep.refl _)
+    | (simp only [setCustomNumFmt] at h
+       injection h with h; injection h with h1 h2; subst h1
+       refine ⟨Touched.refl _ _, Touched.refl _ _, Touched.refl _ _, Touched.refl _ _, fun hc l c hl => ?_⟩
+       simp at hl; obtain ⟨e1, e2⟩ := hl; subst e1; subst e2
+       simp
+       try (apply hc; assumption))
+
+theorem addFont_cstep {r r2 : Reg} {s s' : Style} {i : Nat} (h : addFont r s = .ok (r2, i, s')) : CountStep r r2 := by
+  unfold addFont at h
+  repeat' split at h
+  all_goals first
+    | (simp at h; done)
+    | (injection h with h; injection h with h1 h2; subst h1; exact CountStep.refl _)
+    | (injection h with h; injection h with h1 h2; subst h1
+       exact ⟨Or.inr (by simp), Touched.refl _ _, Touched.refl _ _, Touched.refl _ _, fun h => h⟩)
+
+theorem addBorder_cstep (r : Reg) (s : Style) : CountStep r (addBorder r s).1 := by
+  unfold addBorder
+  repeat' split
+  all_goals first
+    | exact CountStep.refl _
+    | exact ⟨Touched.refl _ _, Touched.refl _ _, Or.inr (by simp), Touched.refl _ _, fun h => h⟩
+
+theorem addFill_cstep (r : Reg) (s : Style) : CountStep r (addFill r s).1 := by
+  unfold addFill
+  repeat' split
+  all_goals first
+    | exact CountStep.refl _
+    | exact ⟨Touched.refl _ _, Or.inr (by simp), Touched.refl _ _, Touched.refl _ _, fun h => h⟩
+
+theorem setCellXfs_cstep {r r5 : Reg} {f n l b id : Nat} {aa ap : Bool} {al : Str} {pr : Bool × Bool}
+    (h : setCellXfs r f n l b aa ap al pr = .ok (r5, id)) : CountStep r r5 := by
+  unfold setCellXfs at h
+  simp only at h
+  split at h
+  · simp at h
+  · injection h with h; injection h with h1 h2; subst h1
+    exact ⟨Touched.refl _ _, Touched.refl _ _, Touched.refl _ _, Or.inr (by simp), fun h => h⟩
+
+theorem createStyle_cstep {r r' : Reg} {s s' : Style} {id : Nat} (h : createStyle r s = .ok (r', id, s')) :
+    CountStep r r' := by
+  unfold createStyle at h
+  split at h
+  · simp at h
+  · rename_i r1 numFmtID h1
+    split at h
+    · simp at h
+    · rename_i r2 fontID s2 h2
+      simp only at h
+      split at h
+      · simp at h
+      · rename_i r5 id5 h5
+        simp at h; obtain ⟨hr, _, _⟩ := h
+        subst hr
+        exact (newNumFmt_cstep h1).trans ((addFont_cstep h2).trans ((addBorder_cstep _ _).trans
+          ((addFill_cstep _ _).trans (setCellXfs_cstep h5))))
+
+theorem newStyle_cstep {r r' : Reg} {s s' : Style} {id : Nat} (h : newStyle r s = .ok (r', id, s')) :
+    CountStep r r' := by
+  unfold newStyle at h
+  split at h
+  · simp at h
+  · split at h
+    · simp at h
+    · simp at h; obtain ⟨h1, _, _⟩ := h; subst h1; exact CountStep.refl _
+    · exact createStyle_cstep h
 
 /-! ### GetStyle is stable under extension -/
 
